@@ -10,7 +10,8 @@
    the frame sees (CALLER, CALLVALUE, ADDRESS, ORIGIN, CODESIZE, SLOAD k, TLOAD k,
    SELFBALANCE); after a call it appends the success flag, RETURNDATASIZE and the
    [rsz]-byte return area the call wrote into; after a CREATE the pushed word and
-   RETURNDATASIZE.  [EReturn tag] / [ERevert tag] return  word(tag) ++ ob.
+   RETURNDATASIZE.  [SIf cond s1 s2] is a conditional jump on a word of the transaction
+   input (the value it has in the run at hand): the frame goes on as s1 if it is non-zero.  [EReturn tag] / [ERevert tag] return  word(tag) ++ ob.
    Besides, a ghost log (never rolled back) records every frame's context and outcome.
    No proofs in this file. *)
 From Coq Require Import ZArith List Bool.
@@ -28,6 +29,8 @@ Inductive script :=
 | SLog (rest : script)
 | SObserve (k : Z) (rest : script)
 | SRetCopy (off size : Z) (rest : script)            (* RETURNDATACOPY into the buffer *)
+| SIf (cond : Z) (s1 s2 : script)                    (* JUMPI on a word of the input: s1 if it is non-zero *)
+| SExtCode (a off : Z) (rest : script)               (* EXTCODESIZE a; EXTCODECOPY of a, 32 bytes from [off], over non-zero memory *)
 | SCall (kd : ckind) (to v rsz : Z) (callee rest : script)
 | SCreate (v : Z) (initcode : list Z) (init rest : script).
 
@@ -43,10 +46,7 @@ Inductive logitem :=
 | LFrame (c : fctx)              (* a frame starts executing with this context *)
 | LEnd (r : fres)                (* ... and ends like this *)
 | LEvent (this : Z)              (* LOG executed by [this] *)
-(* classification markers of the three situations in which halmos is known to deviate *)
-| LStaticValueCall               (* CALL with non-zero value inside a static frame *)
-| LCallcodeFunds                 (* CALLCODE with value > balance *)
-| LRetcopyZero                   (* RETURNDATACOPY with size 0 and offset > RETURNDATASIZE *)
+(* classification marker of the one situation in which halmos is known to deviate *)
 | LDepthNoCode.                  (* call of an address without account at the depth limit *)
 
 Inductive sres := SOk (ret : list Z) (w : world) | SRevert (ret : list Z) | SHalt.
@@ -77,6 +77,14 @@ Definition observation (c : fctx) (w : world) (k : Z) : list Z :=
   words [c_caller c; c_value c; c_this c; c_origin c; blen (c_code c);
          sload_of (w_storage w) (c_this c) k; sload_of (w_transient w) (c_this c) k;
          get_balance w (c_this c)].
+
+(* what a frame sees of the code of account [a]: its size, and the 32 bytes from offset [off]
+   on (zeros beyond the end of the code; an account without code reads as zeros) *)
+Definition code_window (code : list Z) (off : Z) : list Z :=
+  firstn 32 (skipn (Z.to_nat off) code ++ repeat 0 32).
+Definition ext_observation (w : world) (a off : Z) : list Z :=
+  let code := get_code w (a mod 2 ^ 160) in
+  words [blen code] ++ code_window code off.
 
 (* the [rsz]-byte return area (initially zero) after the call wrote min(rsz, |ret|) bytes *)
 Definition ret_area (rsz : Z) (ret : list Z) : list Z :=
@@ -133,19 +141,20 @@ Fixpoint sexec (s : script) (c : fctx) (w : world) (ctr : Z) (ob rd : list Z) {s
   | SObserve k rest => sexec rest c w ctr (ob ++ observation c w k) rd
   | SRetCopy off size rest =>
       if blen rd <? off + size then
-        (SHalt, ctr, (if size =? 0 then [LRetcopyZero] else []) ++ [LEnd FHalt])
+        (SHalt, ctr, [LEnd FHalt])         (* EIP-211: also for size 0 *)
       else sexec rest c w ctr (ob ++ firstn (Z.to_nat size) (skipn (Z.to_nat off) rd)) rd
+  | SIf cond s1 s2 => if cond =? 0 then sexec s2 c w ctr ob rd else sexec s1 c w ctr ob rd
+  | SExtCode a off rest => sexec rest c w ctr (ob ++ ext_observation w a off) rd
   | SCall kd to0 v0 rsz callee rest =>
       let to := to0 mod ADDR_MOD in
       let v := if carries_value kd then v0 else 0 in
       if is_kcall kd && c_static c && negb (v =? 0) then
-        (SHalt, ctr, [LStaticValueCall; LEnd FHalt])
+        (SHalt, ctr, [LEnd FHalt])         (* a value-bearing CALL is a state modification *)
       else if MAX_DEPTH <? c_depth c + 1 then
         let '(r, ctr', lg) := sexec rest c w ctr (after_call ob 0 [] rsz []) [] in
         (r, ctr', (if has_account w to then [] else [LDepthNoCode]) ++ lg)
       else if carries_value kd && negb (can_pay w (c_this c) v) then
-        let '(r, ctr', lg) := sexec rest c w ctr (after_call ob 0 [] rsz []) [] in
-        (r, ctr', (if is_kcallcode kd then [LCallcodeFunds] else []) ++ lg)
+        sexec rest c w ctr (after_call ob 0 [] rsz []) []
       else
         let w1 := if is_kcall kd then xfer w (c_this c) to v else w in
         let sc := sub_ctx kd c w to v in
@@ -203,12 +212,14 @@ Fixpoint supported (s : script) : bool :=
   match s with
   | SEnd _ => true
   | SSstore _ _ r | STstore _ _ r | SLog r | SObserve _ r | SRetCopy _ _ r => supported r
+  | SIf _ s1 s2 => supported s1 && supported s2
+  | SExtCode a _ r => negb (reserved (a mod ADDR_MOD)) && supported r
   | SCall _ to _ _ callee r => negb (reserved (to mod ADDR_MOD)) && supported callee && supported r
   | SCreate _ _ init r => supported init && supported r
   end.
 
 Definition is_marker (l : logitem) : bool :=
-  match l with LStaticValueCall | LCallcodeFunds | LRetcopyZero | LDepthNoCode => true | _ => false end.
+  match l with LDepthNoCode => true | _ => false end.
 Definition clean (lg : list logitem) : bool := forallb (fun l => negb (is_marker l)) lg.
 
 (* sum of the balances of a list of addresses *)
